@@ -43,6 +43,15 @@ type PoolScenario struct {
 	// until the explorer lets the backend drain it ("drain-conn j" event).
 	StallBytes int   `json:"stallBytes,omitempty"`
 	Choices    []int `json:"choices"`
+	// FineCuts: a pooled connection can be cut after any of a set of byte offsets of the unread
+	// reply bytes (inside the header, right after it, inside and right after the extras, before the
+	// last byte), not only in the middle.
+	FineCuts bool `json:"fineCuts,omitempty"`
+	// BufSize: read/write buffer size of the pooled connections (0: 256 bytes, which forces refills;
+	// 65536 is memproxy's default)
+	BufSize int `json:"bufSize,omitempty"`
+	// SlowAdvance: the "advance-time" event lets ten seconds pass (a backend that answers very late).
+	SlowAdvance bool `json:"slowAdvance,omitempty"`
 	// AltCap > 0: at every decision only the default and its AltCap nearest alternatives are explored.
 	AltCap int `json:"altCap,omitempty"`
 }
@@ -209,7 +218,11 @@ func RunPool(sc PoolScenario, prefix []int) *PoolResult {
 	defer func() { vnet.DialHook, vrand.IntnHook, vrand.Int31Hook, vyield.Hook = nil, nil, nil, nil }()
 
 	sock := fmt.Sprintf("verif-sock-%d", atomic.AddInt64(&poolSockSeq, 1))
-	opts := batched.Opts{BatchSize: uint32(sc.BatchSize), BatchDelayMicros: uint32(poolBatchDelay / time.Microsecond), ReadBufSize: 256, WriteBufSize: 256,
+	bufSize := uint32(256)
+	if sc.BufSize > 0 {
+		bufSize = uint32(sc.BufSize)
+	}
+	opts := batched.Opts{BatchSize: uint32(sc.BatchSize), BatchDelayMicros: uint32(poolBatchDelay / time.Microsecond), ReadBufSize: bufSize, WriteBufSize: bufSize,
 		EvaluationIntervalSec: 4000000000, LoadFactorExpandRatio: 1000, OverloadedConnRatio: 1000}
 	h0 := batched.NewHandler(sock, opts)
 	for batched.VerifPoolSize(sock) < sc.PoolSize {
@@ -256,32 +269,33 @@ func RunPool(sc PoolScenario, prefix []int) *PoolResult {
 		type ev struct {
 			kind string
 			i    int
+			k    int
 		}
 		var evs []ev
 		for yi, y := range yields {
 			opts = append(opts, "resume-"+y.label)
-			evs = append(evs, ev{"yield", yi})
+			evs = append(evs, ev{"yield", yi, 0})
 		}
 		for i := 0; i < n; i++ {
 			if !started[i] {
 				opts = append(opts, fmt.Sprintf("start%d", i))
-				evs = append(evs, ev{"start", i})
+				evs = append(evs, ev{"start", i, 0})
 			}
 		}
 		if sc.Late && allDone && !started[n] {
 			opts = append(opts, "start-late")
-			evs = append(evs, ev{"late", n})
+			evs = append(evs, ev{"late", n, 0})
 		}
 		for j, pc := range pconns {
 			if pc.Stalled() {
 				opts = append(opts, fmt.Sprintf("drain-conn%d", j))
-				evs = append(evs, ev{"drain", j})
+				evs = append(evs, ev{"drain", j, 0})
 			}
 		}
 		for j, pc := range pconns {
 			if pc.PendingFrames() > 0 && !pc.PeerClosed {
 				opts = append(opts, fmt.Sprintf("deliver-conn%d", j))
-				evs = append(evs, ev{"deliver", j})
+				evs = append(evs, ev{"deliver", j, 0})
 			}
 		}
 		mu.Unlock()
@@ -289,16 +303,23 @@ func RunPool(sc PoolScenario, prefix []int) *PoolResult {
 			break
 		}
 		opts = append(opts, "advance-time")
-		evs = append(evs, ev{"advance", 0})
+		evs = append(evs, ev{"advance", 0, 0})
 		if cutsLeft > 0 && !started[n] {
 			mu.Lock()
 			for j, pc := range pconns {
 				if !pc.PeerClosed && !pc.LocalClosed {
 					opts = append(opts, fmt.Sprintf("cut-conn%d", j))
-					evs = append(evs, ev{"cut", j})
+					evs = append(evs, ev{"cut", j, 0})
 					if a, _ := pc.Residue(); a > 1 {
 						opts = append(opts, fmt.Sprintf("cut-conn%d-mid-reply", j))
-						evs = append(evs, ev{"cutmid", j})
+						evs = append(evs, ev{"cutmid", j, 0})
+					}
+					if sc.FineCuts && pc.PendingFrames() > 0 {
+						// the next held request is answered, but the connection is lost k bytes into the reply
+						for _, k := range []int{1, 23, 24, 25, 26, 27, 28, 29, 31, 32} {
+							opts = append(opts, fmt.Sprintf("deliver-conn%d-lost-after-%d-bytes", j, k))
+							evs = append(evs, ev{"cutat", j, k})
+						}
 					}
 				}
 			}
@@ -330,6 +351,10 @@ func RunPool(sc PoolScenario, prefix []int) *PoolResult {
 		case "advance":
 			// let the batch timer (and any reconnect back-off) fire
 			time.Sleep(poolBatchDelay)
+			if sc.SlowAdvance {
+				time.Sleep(10 * time.Second)
+				res.ElapsedSec += 11
+			}
 			if sc.MaxCuts > 0 {
 				time.Sleep(1100 * time.Millisecond)
 				res.ElapsedSec += 2
@@ -341,6 +366,13 @@ func RunPool(sc PoolScenario, prefix []int) *PoolResult {
 			refuse = sc.Refusals
 			mu.Unlock()
 			pconns[e.i].Cut()
+		case "cutat":
+			cutsLeft--
+			res.Cuts++
+			mu.Lock()
+			refuse = sc.Refusals
+			mu.Unlock()
+			pconns[e.i].DeliverCut(e.k)
 		case "cutmid":
 			cutsLeft--
 			res.Cuts++
